@@ -3,7 +3,11 @@ mod checks;
 mod evidence;
 mod exec;
 mod gen;
+mod httpd;
 mod inst;
+mod lib_drv;
+mod proc;
+mod scn;
 mod refimpl;
 mod util;
 
@@ -23,12 +27,22 @@ fn main() {
         .ok()
         .and_then(|s| s.parse().ok())
         .unwrap_or(1);
+    if args[1] == "worker" {
+        let code = match args[2].as_str() {
+            "libcompress" => checks::ccommon::worker_libcompress(&args[3]),
+            _ => 64,
+        };
+        std::process::exit(code);
+    }
     if args[1] == "replay" {
         let s = std::fs::read_to_string(&args[2]).expect("read replay file");
         let v: serde_json::Value = serde_json::from_str(&s).expect("parse replay file");
         let id = v["property"].as_str().unwrap_or("").to_string();
         let code = match id.as_str() {
+            "C01" => checks::c01::replay(&v),
+            "C12" => checks::c12::replay(&v),
             "C09" => checks::c09::replay(&v),
+            "C11" => checks::c11::replay(&v),
             _ => {
                 eprintln!("no replay for {}", id);
                 64
@@ -42,7 +56,10 @@ fn main() {
         _ => usage(),
     };
     let code = match args[1].as_str() {
+        "C01" => checks::c01::run(tier, seed),
+        "C12" => checks::c12::run(tier, seed),
         "C09" => checks::c09::run(tier, seed),
+        "C11" => checks::c11::run(tier, seed),
         _ => usage(),
     };
     std::process::exit(code);
